@@ -46,7 +46,7 @@ def run(tier, replay=None):
         seeds += [xlib.src_of(P) for _, P in xlib.template_programs(rng)[:60]]
         for k in range(nmut):
             cases.append({'id': 'mutant%d' % k, 'src': fuzzlib.mutate(rng.choice(seeds), rng, fuzzlib.XTOK, fuzzlib.XPOOL), 'fam': 'mutant'})
-        alpha = list("abfxproc is(){}[];,:=+-~<>=#'\"| \n0123456789")
+        alpha = list("abfxproc is(){}[];,:=+-~<>=#'\"| \n0123456789%$\\\t@`")
         for k in range(nrnd):
             cases.append({'id': 'bytes%d' % k, 'src': fuzzlib.random_bytes(rng, 2048, alpha), 'fam': 'bytes'})
         # big inputs: a few kilobytes of deeply nested constructs
@@ -88,7 +88,8 @@ def run(tier, replay=None):
             chk.violation("memcheck:" + fuzzlib.stable(head), "xcmp on input %s: valgrind memcheck reports %s" % (c['id'], head), {"input.x": c['src'].encode('latin-1', 'replace')})
         # the EXECUTABLE (its main() has exception handlers of its own) on a sample
         usamp = [c for c in cases if c['fam'] == 'unusual']
-        esub = usamp[:: max(1, len(usamp) // (250 if tier == "quick" else 5000))] + [c for c in cases if c['fam'] in ('edge', 'deep')] + scale
+        esub = usamp[:: max(1, len(usamp) // (250 if tier == "quick" else 5000))] + [c for c in cases if c['fam'] in ('edge', 'deep')] + scale + \
+               [c for c in cases if c['fam'] == 'bytes'][:(150 if tier == "quick" else 3000)] + [c for c in cases if c['fam'] == 'mutant'][:(150 if tier == "quick" else 3000)]
         for c, what in fuzzlib.exe_sample(os.path.join(corpus.tools(), "xcmp"), esub, d, ".x", "c09"):
             chk.violation("exe:" + what.split(',')[0], "xcmp executable on input %s: %s" % (c['id'], what), {"input.x": c['src'].encode('latin-1', 'replace')})
         chk.set("executable_runs", len(esub)); chk.set("scale_inputs", len(scale)); chk.set("scale_sizes", list(sizes))
